@@ -196,6 +196,8 @@ func TestC05(t *testing.T) {
 		for i, p1 := range payloads {
 			for j, p2 := range payloads {
 				for k, tail := range [][]Req{nil, {mkReq(opCreateFile, "/w/new.bin")}, {mkReq(opCreateFile, "/w/emptyd")}, {mkReq(opDeleteFile, tg)}, {mkReq(opCreateFile, "/w/old.txt"), wrReq(p1)},
+					{mkReq(opOpenFile, "/ro.bin"), rdReq(0, 10), mkReq(opOpenFile, "/CLOSEFILE"), wrReq(p1), mkReq(opOpenFile, "/nope"), wrReq(p2)},
+					{mkReq(opOpenDir, "/w"), noargReq(opReadDir), mkReq(opStatFile, "/w/new.bin"), wrReq(p1), mkReq(opGetDirSize, "/w"), wrReq(p2)},
 					{mkReq(opCreateFile, "/w/nodir/x"), wrReq(p1)}, {mkReq(opCreateFile, "/***DVD***/game/new.bin"), wrReq(p1)}, {mkReq(opCreateFile, "/w/old.txt/below"), wrReq(p1), mkReq(opCreateFile, "/w/emptyd")}} {
 					for _, d := range []Delivery{{}, {Chunk: 7}, {MaxRead: 1}, {Chunk: 1}} {
 						if (d.Chunk > 0 || d.MaxRead > 0) && (len(p1)+len(p2) > 70000 || k > 1) {
